@@ -68,6 +68,18 @@ def main():
         print(f"replay passes: property={prop} {args.replay}")
         return 0
 
+    cov = None
+    if os.environ.get("VERIF_COVERAGE"):
+        # measurement mode (tools/impl_coverage.sh): which lines of the implementation do this property's scenarios execute?
+        # Sessions then run in this process (see sessions.run_impl_sessions); nothing else changes.
+        import coverage
+        cdir = os.environ["VERIF_COVERAGE"]
+        os.makedirs(cdir, exist_ok=True)
+        cov = coverage.Coverage(data_file=os.path.join(cdir, ".coverage." + prop), branch=True,
+                                include=[os.path.join(os.environ.get("CASSIS_REPO", "/repo"), "cassis", "*.py")])
+        cov.start()
+        import atexit
+        atexit.register(lambda: (cov.stop(), cov.save()))
     try:
         gate = ProofGate(prop, mod.MODULES, mod.THEOREMS, args.tier).run()
         driver = Driver()
